@@ -7,7 +7,7 @@ TRUSTED = ["a fake device on 127.<pid>.<pid>.k:9957 / 10000 counts open connecti
            "a connect issued while connected abandons the old socket; CPython's reference counting closes it at once (modelled runtime "
            "behaviour, outside the property's claim); peer resets are outside the modelled faults"]
 ASSUMPTIONS = ["'operation raises' is a state query answered with garbage (RuntimeError); 'refused' is a closed listening port"]
-RULE = ("action sequences over {connect (device listening / not), disconnect, operation (returns / raises on a garbage reply / raises because the device half-closed the stream at login), async-with (listening / not, "
+RULE = ("action sequences over {connect (device listening / not), disconnect, operation (returns / raises on a garbage reply / raises because the device half-closed the stream at login), the wall clock jumping minutes to days ahead, async-with (listening / not, "
         "body returns / raises KeyError, TimeoutError, ConnectionResetError or is cancelled)} for both API classes: every sequence of length <= 3 (584 per class) and random ones of length 4..8 "
         "(thorough: every sequence of length <= 4); after every action: connected flag, device-side open connections, EOFs seen; "
         "non-trivial = distinct sequences with a successful connect")
@@ -27,57 +27,76 @@ class Dev(world.FakeDevice):
         self.policy = lambda n, d: (bytes(20) if self.mode == "ok" else world.HALF_CLOSE if self.mode == "halfclose" else b"\x01")
 
 
+PATIENCE = 8        # seconds after which an action against the loopback device counts as never returning
+
+
+async def act(api, cls, dev, k, f):
+    if k == 0:
+        await dev.listen(bool(f)); await api.connect()
+    elif k == 1: await api.disconnect()
+    elif k == 2:
+        if api.connected and dev.srv:
+            if f == 2:          # the device answers the login packet by ending its stream (half-close): the operation raises, nothing disconnects
+                dev.mode = "halfclose"
+                try: await (api.get_state() if cls is SwitcherType1Api else api.get_shutter_state())
+                finally: dev.mode = "ok"
+            elif f:
+                dev.mode = "bad"
+                try: await (api.get_state() if cls is SwitcherType1Api else api.get_shutter_state())
+                finally: dev.mode = "ok"
+            else: await (api.control_device(Command.ON) if cls is SwitcherType1Api else api.stop())
+        elif f: raise RuntimeError("simulated failure of an operation while not connected")
+    else:
+        await dev.listen(bool(f))
+        async with api:
+            if k == 4: raise KeyError("body")
+            if k == 5: raise asyncio.TimeoutError("body timed out")      # an OSError subclass since Python 3.11
+            if k == 6: raise ConnectionResetError("body lost its peer")
+            if k == 7: raise asyncio.CancelledError()
+
+
 async def run_seq(cls, dev, acts, ip):
-    api = cls(ip, "ab1c2d", "18"); out = ""; dev.open = 0; dev.eofs = 0
+    import time_machine, time
+    api = cls(ip, "ab1c2d", "18"); out = ""; dev.open = 0; dev.eofs = 0; hung = False
     for k, f in acts:
         o = "."
+        if k == 8:          # the wall clock jumps ahead (idle time, suspend / resume, a clock step): nothing happened to the connection
+            with time_machine.travel(time.time() + 60 * f, tick=True): flag = api.connected
+            out += ("C" if flag else "c") + "%d,%d" % (dev.open, dev.eofs) + "t|"; continue
+        if hung: out += "never-returned|"; continue
         try:
-            if k == 0:
-                await dev.listen(bool(f)); await api.connect()
-            elif k == 1: await api.disconnect()
-            elif k == 2:
-                if api.connected and dev.srv:
-                    if f == 2:          # the device answers the login packet by ending its stream (half-close): the operation raises, nothing disconnects
-                        dev.mode = "halfclose"
-                        try: await (api.get_state() if cls is SwitcherType1Api else api.get_shutter_state())
-                        finally: dev.mode = "ok"
-                    elif f:
-                        dev.mode = "bad"
-                        try: await (api.get_state() if cls is SwitcherType1Api else api.get_shutter_state())
-                        finally: dev.mode = "ok"
-                    else: await (api.control_device(Command.ON) if cls is SwitcherType1Api else api.stop())
-                elif f: raise RuntimeError("simulated failure of an operation while not connected")
-            else:
-                await dev.listen(bool(f))
-                async with api:
-                    if k == 4: raise KeyError("body")
-                    if k == 5: raise asyncio.TimeoutError("body timed out")      # an OSError subclass since Python 3.11
-                    if k == 6: raise ConnectionResetError("body lost its peer")
-                    if k == 7: raise asyncio.CancelledError()
+            await asyncio.wait_for(act(api, cls, dev, k, f), PATIENCE)
+        except asyncio.TimeoutError as e:
+            if k == 5 and "body timed out" in str(e): o = "!"
+            else: hung = True; out += "never-returned|"; continue
         except (OSError, RuntimeError, KeyError, asyncio.CancelledError): o = "!"
         await settle()
         if k == 0 or k >= 3: gc.collect(); await settle()
         out += ("C" if api.connected else "c") + "%d,%d" % (dev.open, dev.eofs) + o + "|"
-    try: await api.disconnect()
+    try: await asyncio.wait_for(api.disconnect(), PATIENCE)
     except Exception: pass
     await settle()
     return out
 
 
 NAMES = ["connect", "disconnect", "operation", "with", "with-body-raising-KeyError", "with-body-raising-TimeoutError",
-         "with-body-raising-ConnectionResetError", "with-body-cancelled"]
+         "with-body-raising-ConnectionResetError", "with-body-cancelled", "clock-jumps-ahead"]
 
 
 def spec_judge(acts, text):
     """the property's clauses, independent of the model: track what 'connected' must be"""
     must = False; steps = text.split("|")[:-1]
     for (k, f), st in zip(acts, steps):
+        if st == "never-returned": return "%s never returned (waited %d s against a loopback device)" % (NAMES[k], PATIENCE)
         flag = st[0] == "C"; open_ = int(st[1:st.index(",")]); o = st[-1]
+        if k == 8:
+            if flag != must: return "connected is %s where it must be %s after the clock jumped %d minutes ahead (%s)" % (flag, must, f, st)
+            continue
         if k == 0:
             if f: must = True
             elif o != "!": return "a refused connect did not raise (%s)" % st
         elif k == 1: must = False
-        elif k >= 3:
+        elif 3 <= k <= 7:
             if f: must = False
             elif o != "!": return "entering the context against a closed port did not raise (%s)" % st
         if flag != must and not ((k == 0 or k >= 3) and not f): return "connected is %s where it must be %s after %s (%s)" % (flag, must, NAMES[k], st)
@@ -92,7 +111,7 @@ def model_acts(acts):
     for k, f in acts:
         if k == 0 and f: conn, dead = True, False
         elif k == 1: conn = False
-        elif k >= 3 and f: conn = False
+        elif 3 <= k <= 7 and f: conn = False
         if k == 2:
             if f == 2 and conn: dead = True
             out.append([2, 1 if (f or (conn and dead)) else 0])
@@ -102,22 +121,37 @@ def model_acts(acts):
 
 def run_sequences(out, stream, cls, seqs):
     async def go():
-        ip = world.loopback_ip(7); dev = Dev(ip, 9957 if cls is SwitcherType1Api else 10000); res = []
-        for s in seqs: res.append(await asyncio.wait_for(run_seq(cls, dev, s, ip), 30))
+        ip = world.loopback_ip(7); dev = Dev(ip, 9957 if cls is SwitcherType1Api else 10000); res = []; stuck = 0
+        for s in seqs:
+            if stuck >= 3: res.append(None); continue         # three sequences already ended in a call that never returns: enough to report
+            t = await asyncio.wait_for(run_seq(cls, dev, s, ip), 120); res.append(t)
+            if "never-returned" in t: stuck += 1
         await dev.listen(False)
         return res
     io = asyncio.run(go())
-    mo = lib.run_model([lib.req("client", model_acts(s)) for s in seqs])
+    mo = lib.run_model([lib.req("client", [a for a in model_acts(s) if a[0] != 8]) for s in seqs])
+    for j, s_ in enumerate(seqs):           # the model has no clock: a jump of the wall clock repeats the previous observation
+        if any(k == 8 for k, _ in s_):
+            it = iter(mo[j].split("|")[:-1]); outl = []; prev = "c0,0."
+            for k, f in s_:
+                if k == 8: outl.append(prev[:-1] + "t")
+                else: prev = next(it); outl.append(prev)
+            mo[j] = "".join(x + "|" for x in outl)
+    skipped = [j for j, t in enumerate(io) if t is None]
+    if skipped:
+        out.notes.append("%d sequences were not run after three sequences had ended in a call that never returned" % len(skipped))
+        keep = [j for j, t in enumerate(io) if t is not None]
+        seqs = [seqs[j] for j in keep]; io = [io[j] for j in keep]; mo = [mo[j] for j in keep]
     names = NAMES
     cases = [{"cls": cls.__name__, "acts": [list(a) for a in s]} for s in seqs]
     lib.differential(out, stream, cases, io, mo, ["ok"] * len(cases), lambda c: c["cls"] + ": " + ", ".join("%s(%d)" % (names[k], f) for k, f in c["acts"]),
-                     nontrivial=lambda c: any((k == 0 or k >= 3) and f for k, f in c["acts"]), sample=lambda c: c, classify=lambda c, i: c["cls"] + "/len%d" % len(c["acts"]),
+                     nontrivial=lambda c: any((k == 0 or 3 <= k <= 7) and f for k, f in c["acts"]), sample=lambda c: c, classify=lambda c, i: c["cls"] + "/len%d" % len(c["acts"]),
                      impl_spec=[spec_judge(s, t) for s, t in zip(seqs, io)])
 
 
 def run(tier, rnd, out):
     alphabet = [(0, 1), (0, 0), (1, 0), (2, 0), (2, 1), (3, 1), (3, 0), (4, 1)]
-    wide = alphabet + [(5, 1), (6, 1), (7, 1), (4, 0), (5, 0), (2, 2), (2, 2)]
+    wide = alphabet + [(5, 1), (6, 1), (7, 1), (4, 0), (5, 0), (2, 2), (2, 2), (8, 2), (8, 90), (8, 60 * 24 * 3)]
     by = {"SwitcherType1Api": SwitcherType1Api, "SwitcherType2Api": SwitcherType2Api}
     for c in lib.load_corpus("C18"): run_sequences(out, "corpus", by[c["cls"]], [[tuple(a) for a in c["acts"]]])
     seqs = [list(s) for L in ((1, 2, 3) if tier == "quick" else (1, 2, 3, 4)) for s in itertools.product(alphabet, repeat=L)]
